@@ -26,7 +26,7 @@ TOL = 1e-9
 # Entry: {"id": ..., "what": ..., "match": lambda case: bool}
 PROPOSED_KNOWN = []
 
-OWN_V = ["Ops/DFT.v", "Ops/DFTEngines.v", "Corr/CheckC08.v", "Props/C08.v", "Props/C07c.v"]
+OWN_V = ["Ops/DFT.v", "Ops/DFTEngines.v", "Ops/Haar.v", "Corr/CheckC08.v", "Props/C08.v", "Props/C07c.v"]
 
 
 def build_own():
@@ -152,7 +152,7 @@ def is_complex_input(family, p):
     if family in ("Flip", "Roll", "Transpose", "Identity"):
         return p["dtype"] == "complex128"
     if family == "MatrixMult":
-        return p["cplx"]
+        return p["cplx"] or bool(p.get("xc"))
     return False
 
 
@@ -164,10 +164,27 @@ def roundtrip(Op, kind, x, p=None):
         return Op / y
     if kind == "div_numpy":
         return Op.div(y, densesolver="numpy")
+    if kind == "div_default":
+        return Op.div(y)
     if kind == "inv":
         Ai = Op.inv()
         return np.asarray(Ai.dot(y)).ravel()
     raise ValueError(kind)
+
+
+def shape_problem(Op):
+    """dims / dimsd / shape and the lengths actually returned must agree."""
+    try:
+        n, m = int(np.prod(Op.dims)), int(np.prod(Op.dimsd))
+        if tuple(int(t) for t in Op.shape) != (m, n):
+            return "shape %s != (prod(dimsd)=%d, prod(dims)=%d)" % (tuple(Op.shape), m, n)
+        ly = np.asarray(Op @ np.ones(n)).size
+        lx = np.asarray(Op.H @ np.ones(m)).size
+        if ly != m or lx != n:
+            return "Op @ x has %d samples (shape says %d); Op.H @ y has %d (shape says %d)" % (ly, m, lx, n)
+    except Exception as e:                                       # noqa: BLE001
+        return "raised " + repr(e)
+    return None
 
 
 def intvec(rs, n, cplx):
@@ -262,6 +279,21 @@ def other_grid(tier, rs):
     if tier == "quick":
         dw = rs.sample(dw, 170)
     out += dw
+    # decomposition level deeper than the signal supports (2**level > next power of two of n):
+    # the operator pads to 2**level; rmatvec and '/' (Op.div) must still recover x
+    deep = []
+    for wl in WAVELETS:
+        for n, lev in ((5, 4), (3, 3), (6, 4), (1, 2), (2, 3), (7, 4)):
+            deep.append(("DWT", dict(dims=[n], axis=0, wavelet=wl, level=lev, deep=True)))
+        deep.append(("DWT", dict(dims=[5, 3], axis=0, wavelet=wl, level=4, deep=True)))
+        deep.append(("DWT", dict(dims=[2, 3], axis=-1, wavelet=wl, level=3, deep=True)))
+        for dims, lev in (((5, 6), 4), ((3, 5), 3), ((2, 2), 2), ((6, 3), 4)):
+            deep.append(("DWT2D", dict(dims=list(dims), axes=[0, 1], wavelet=wl, level=lev, deep=True)))
+        deep.append(("DWT2D", dict(dims=[2, 3, 5], axes=[1, 2], wavelet=wl, level=3, deep=True)))
+        deep.append(("DWTND", dict(dims=[3, 5, 2], axes=[0, 1, 2], wavelet=wl, level=3, deep=True)))
+    if tier == "quick":
+        deep = [d for d in deep if d[1]["wavelet"] == "haar"] + rs.sample([d for d in deep if d[1]["wavelet"] != "haar"], 40)
+    out += deep
     for dims in [(1,), (2,), (5,), (3, 4), (2, 3, 4)]:
         for axis in range(-len(dims), len(dims)):
             for dt in ("float64", "complex128"):
@@ -289,6 +321,17 @@ def other_grid(tier, rs):
                         A = np.vstack([unimodular(rs, n, cplx), np.array([[rs.randint(-2, 2) for _ in range(n)] for _ in range(rs.randint(1, 3))])])
                         out.append(("MatrixMult", dict(A=[[str(complex(t)) for t in r] for r in A], cplx=cplx, sparse=None,
                                                        wrap=wrap, rect=True)))
+    # REAL matrix, COMPLEX right-hand side (x Gaussian-integer): '/', div(scipy), div(numpy), inv, square and tall
+    for n in (1, 2, 3, 4, 5):
+        for wrap in (False, True):
+            for sparse in (None, "csc"):
+                for _ in range(1 if tier == "quick" else 3):
+                    A = unimodular(rs, n, False)
+                    out.append(("MatrixMult", dict(A=[[str(complex(t)) for t in r] for r in A], cplx=False, xc=True, sparse=sparse,
+                                                   wrap=wrap, rect=False)))
+            A = np.vstack([unimodular(rs, n, False), np.array([[rs.randint(-2, 2) for _ in range(n)] for _ in range(rs.randint(1, 3))])])
+            out.append(("MatrixMult", dict(A=[[str(complex(t)) for t in r] for r in A], cplx=False, xc=True, sparse=None,
+                                           wrap=wrap, rect=True)))
     # structured explicit operators: solvers may pick structure-specific drivers
     for mkind in MKINDS:
         for n in (1, 2, 3, 4, 5):
@@ -310,7 +353,137 @@ def kinds_for(family, p):
         if p["wrap"]:            # the wrapper has no inv(); '/' goes through the explicit branch
             return ("div",) if p["sparse"] else ("div", "div_numpy")
         return ("inv", "div") if p["sparse"] else ("inv", "div", "div_numpy")
+    if p.get("deep"):
+        return ("iso", "div", "div_default")
     return ("iso",)
+
+
+# ------------------------------------------------------------------ Haar DWT vs the Coq model
+def haar_grid(tier):
+    """(dims, axis, level): 1-D lengths incl. non powers of two, level 0 and levels deeper than the
+    length supports (pad to 2**level), and axes of 2-D / 3-D arrays."""
+    out = []
+    for n in (1, 2, 3, 4, 5, 6, 7, 8, 9, 12, 16):
+        for lev in (0, 1, 2, 3, 4):
+            if max(1 << max(n - 1, 0).bit_length(), 1 << lev) <= 16:
+                out.append(dict(dims=[n], axis=0, level=lev))
+    for dims, axis in (((3, 4), 0), ((3, 4), 1), ((3, 4), -1), ((2, 3, 2), 1), ((5, 2), 0), ((2, 2, 3), -1), ((1, 6), 1)):
+        for lev in (1, 2, 3):
+            out.append(dict(dims=list(dims), axis=axis, level=lev))
+    if tier != "quick":
+        for n in (10, 11, 13, 20, 32):
+            for lev in (1, 3, 5):
+                out.append(dict(dims=[n], axis=0, level=lev))
+    return out
+
+
+def haar_ref(p, x, adjoint=False):
+    """numpy transcription of the documented Haar transform with pylops' padding (search / replay only)."""
+    dims, ax, L = list(p["dims"]), p["axis"] % len(p["dims"]), p["level"]
+    n = dims[ax]
+    P = max(1 << max(n - 1, 0).bit_length(), 1 << L)
+    c = 1 / np.sqrt(2)
+    if not adjoint:
+        a = np.moveaxis(np.asarray(x, dtype=float).reshape(dims), ax, -1)
+        a = np.concatenate([a, np.zeros(a.shape[:-1] + (P - n,))], axis=-1)
+        det = []
+        for _ in range(L):
+            det.insert(0, (a[..., 0::2] - a[..., 1::2]) * c)
+            a = (a[..., 0::2] + a[..., 1::2]) * c
+        return np.moveaxis(np.concatenate([a] + det, axis=-1), -1, ax).ravel()
+    dd = list(dims)
+    dd[ax] = P
+    y = np.moveaxis(np.asarray(x, dtype=float).reshape(dd), ax, -1)
+    m = P >> L
+    a = y[..., :m]
+    for _ in range(L):
+        d = y[..., m:2 * m]
+        z = np.empty(a.shape[:-1] + (2 * m,))
+        z[..., 0::2] = (a + d) * c
+        z[..., 1::2] = (a - d) * c
+        a, m = z, 2 * m
+    return np.moveaxis(a[..., :n], -1, ax).ravel()
+
+
+def _sqrt2_60():
+    import math
+    from fractions import Fraction
+    v = Fraction(math.isqrt(2 << 200), 1 << 100)
+    n = v * (1 << 60)
+    return Fraction((2 * n.numerator + n.denominator) // (2 * n.denominator), 1 << 60)
+
+
+def haar_cases(tier):
+    import pylops
+    rx = common.rng(PID, "haar", tier)
+    recs = []
+    for i, p in enumerate(haar_grid(tier)):
+        rec = dict(id=i, params=p)
+        try:
+            Op = pylops.signalprocessing.DWT(tuple(p["dims"]), axis=p["axis"], wavelet="haar", level=p["level"])
+            m, n = int(Op.shape[0]), int(Op.shape[1])
+            rec["cols"] = [(j, np.asarray(Op @ np.eye(n)[j]).ravel()) for j in range(n)]
+            x = intvec(rx, n, False)
+            y = intvec(rx, m, False)
+            rec["vecs"] = [(x, np.asarray(Op @ x).ravel())]
+            rec["adj"] = [(y, np.asarray(Op.H @ y).ravel())]
+        except Exception as e:                                   # noqa: BLE001
+            rec["error"] = repr(e)
+        recs.append(rec)
+    return recs
+
+
+def haar_emit(d, recs):
+    good = [r for r in recs if "error" not in r]
+    nsh = max(1, min(16, (len(good) + 11) // 12))
+    r2 = common.qlit(_sqrt2_60())
+    files = []
+    for k in range(nsh):
+        sh = good[k::nsh]
+        idmap, lits = {}, []
+        for lid, r in enumerate(sh):
+            p = r["params"]
+            idmap[lid] = r["id"]
+            lits.append("{| h_id := %d; h_dims := %s; h_ax := %d; h_L := %d; h_r2 := %s;\n  h_cols := [%s];\n  h_vecs := [%s];\n  h_adj := [%s] |}"
+                        % (lid, common.natlist(p["dims"]), p["axis"] % len(p["dims"]), p["level"], r2,
+                           "; ".join("(%d%%nat, %s)" % (j, common.vlit(c)) for j, c in r["cols"]),
+                           "; ".join("(%s, %s)" % (common.vlit(a), common.vlit(b)) for a, b in r["vecs"]),
+                           "; ".join("(%s, %s)" % (common.vlit(a), common.vlit(b)) for a, b in r["adj"])))
+        if k == 0:    # canary: n = 2, level 1 with a wrong entry (1/2 instead of sqrt2/2)
+            idmap[len(sh)] = "canary"
+            lits.append("{| h_id := %d; h_dims := [2%%nat]; h_ax := 0; h_L := 1; h_r2 := %s;\n  h_cols := [(0%%nat, [(q 1 2); (q 1 2)])]; h_vecs := []; h_adj := [] |}" % (len(sh), r2))
+        L = ["From Coq Require Import QArith Qcanon ZArith List. Import ListNotations.",
+             "From PV Require Import Dict Vec Dot Mat QcInst GaussQc Check CheckC08.",
+             "Definition tol : Qc := q 1 1000000000.",
+             "Definition cs : list hcase := [\n " + ";\n ".join(lits) + "].",
+             "Eval vm_compute in (failing h_id (h_check tol) cs)."]
+        name = "c08h_%02d" % k
+        with open(os.path.join(d, name + ".v"), "w") as f:
+            f.write("\n".join(L) + "\n")
+        files.append((name, idmap))
+    return files
+
+
+def haar_search(p):
+    import pylops
+    Op = pylops.signalprocessing.DWT(tuple(p["dims"]), axis=p["axis"], wavelet="haar", level=p["level"])
+    m, n = int(Op.shape[0]), int(Op.shape[1])
+    for j in range(n):
+        e = np.eye(n)[j]
+        obs, doc = np.asarray(Op @ e).ravel(), haar_ref(p, e)
+        if obs.shape != doc.shape:
+            return dict(direction="forward", unit_vector=j, shape_observed=list(obs.shape), shape_documented=list(doc.shape))
+        bad = np.abs(obs - doc) > TOL * (1 + np.abs(doc))
+        if bad.any():
+            k = int(np.argmax(bad))
+            return dict(direction="forward", unit_vector=j, row=k, observed=float(obs[k]), documented=float(doc[k]))
+    for j in range(m):
+        e = np.eye(m)[j]
+        obs, doc = np.asarray(Op.H @ e).ravel(), haar_ref(p, e, adjoint=True)
+        bad = (obs.shape != doc.shape) or bool((np.abs(obs - doc) > TOL * (1 + np.abs(doc))).any())
+        if bad:
+            return dict(direction="adjoint", unit_vector=j, observed=[float(t) for t in obs], documented=[float(t) for t in doc])
+    return None
 
 
 # ------------------------------------------------------------------ run
@@ -327,6 +500,10 @@ def run_cases(tier):
             continue
         cplx = is_complex_input(fam, p)
         n = int(Op.shape[1])
+        sh = shape_problem(Op)
+        if sh:
+            errors.append(dict(family=fam, params=p, kind="shape", error=sh))
+            continue
         for kind in kinds_for(fam, p):
             x = intvec(rx, n, cplx)
             try:
@@ -420,9 +597,21 @@ def search(fam, p, kind):
 def replay(rp):
     warnings.simplefilter("ignore")
     fam, p, kind = rp["family"], rp["params"], rp["kind"]
+    if kind == "haar":
+        try:
+            s_ = haar_search(p)
+        except Exception as e:                                   # noqa: BLE001
+            s_ = dict(error=repr(e))
+        print(s_)
+        print("reproduced" if s_ else "not reproduced")
+        return 1 if s_ else 0
     try:
         Op = build(fam, p)
-        if kind == "gram":
+        if kind == "shape":
+            sp_ = shape_problem(Op)
+            print(sp_)
+            bad = sp_ is not None
+        elif kind == "gram":
             n = int(Op.shape[1])
             C = np.array([np.asarray(Op @ e).ravel() for e in np.eye(n)])
             bad = bool(np.abs(C.conj() @ C.T - np.eye(n)).max() > TOL)
@@ -440,7 +629,8 @@ def replay(rp):
     return 1 if bad else 0
 
 
-WHAT = {"iso": "Op.H @ (Op @ x) != x", "div": "Op / (Op @ x) != x", "div_numpy": "Op.div(Op @ x, densesolver='numpy') != x",
+WHAT = {"shape": "shape / dims / dimsd / output lengths are inconsistent", "div_default": "Op.div(Op @ x) != x",
+        "iso": "Op.H @ (Op @ x) != x", "div": "Op / (Op @ x) != x", "div_numpy": "Op.div(Op @ x, densesolver='numpy') != x",
         "inv": "Op.inv() @ (Op @ x) != x", "gram": "columns of Op are not orthonormal (Op^H Op != I)"}
 
 
@@ -473,16 +663,31 @@ def main(tier):
         for lid in common.parse_failing(outs[n]):
             typ, gi = idmap[lid]
             (canaries if typ == "canary" else failing).add((typ, gi))
+    hrecs = haar_cases(tier)
+    hfiles = haar_emit(d, hrecs)
+    houts = common.run_coq_files(d, [n for n, _ in hfiles])
+    hfail, hcan = {}, False
+    for n, idmap in hfiles:
+        for lid, codes in common.parse_failing(houts[n]).items():
+            if idmap[lid] == "canary":
+                hcan = True
+            else:
+                hfail[idmap[lid]] = codes
+    if not hcan:
+        raise SystemExit("C08 Haar canary not flagged: the Coq comparison pipeline is broken")
     t_coq = time.time() - t0
     if canaries != {("canary", 0), ("canary", 1), ("canary", 2)}:
         raise SystemExit("C08 canaries not flagged (%s): the Coq comparison pipeline is broken" % sorted(canaries))
     reported = set()
-    for e in errors:
-        key = (e["family"], e["kind"], repr(sorted(e["params"].items(), key=str)))
-        if key in reported:
-            continue
+    egroups = {}
+    for e in errors:       # one representative per (family, stage, exception type / first words)
+        egroups.setdefault((e["family"], e["kind"], e["error"].split("(")[0][:40]), []).append(e)
+    for key in sorted(egroups, key=str)[:40]:
+        lst = egroups[key]
+        e = min(lst, key=lambda t: len(str(t["params"])))
         reported.add(key)
-        R.violation("%s raised on a valid configuration (%s): %s %s" % (e["family"], e["kind"], e["params"], e["error"]),
+        more = " [+%d more configurations failing this way]" % (len(lst) - 1) if len(lst) > 1 else ""
+        R.violation(("%s: %s: %s %s" if e["kind"] == "shape" else "%s raised on a valid configuration (%s): %s %s") % (e["family"], WHAT["shape"] if e["kind"] == "shape" else e["kind"], e["params"], e["error"]) + more,
                     dict(family=e["family"], params=e["params"], kind=e["kind"] if e["kind"] in WHAT else "iso", error=e["error"],
                          x=e.get("x", ["1"] * 1)))
     # group the failing cases: one searched representative (smallest) per
@@ -524,6 +729,23 @@ def main(tier):
             rp = dict(family=c["family"], params=c["params"], kind=kind)
             rp.update(s)
             R.violation(what + (" (observed ratio %s)" % s.get("ratio_at_support") if s.get("ratio_at_support") else "") + more, rp)
+    hbad = 0
+    hlist = [r for r in hrecs if "error" in r or r["id"] in hfail]
+    hbad = len(hlist)
+    for gi, r in enumerate(sorted(hlist, key=lambda r: (int(np.prod(r["params"]["dims"])), r["params"]["level"], r["id"]))[:3]):
+        p = r["params"]
+        more = " [%d Haar configurations fail in total]" % hbad if gi == 0 and hbad > 1 else ""
+        if "error" in r:
+            R.violation("DWT(haar) raised on a valid configuration: %s %s%s" % (p, r["error"], more), dict(family="DWT", params=p, kind="haar", error=r["error"]))
+            continue
+        s_ = haar_search(p)
+        rp = dict(family="DWT", params=p, kind="haar", coq_codes=hfail[r["id"]])
+        if s_:
+            rp.update(s_)
+            R.violation("DWT(wavelet='haar', dims=%s, axis=%s, level=%s) is not the Haar transform of Ops/Haar.v: %s%s" % (p["dims"], p["axis"], p["level"], s_, more), rp)
+        else:
+            rp.update(broken="Corr.CheckC08.h_check (implementation matrix vs Haar model; theorems C08_haar_*)")
+            R.violation("DWT(haar) %s disagrees with the Coq Haar model but the numpy transcription agrees%s" % (p, more), rp, no_input=True)
     if axioms and not set(axioms) <= common.ALLOWED_AXIOMS:
         R.violation("Props/C08.v depends on unexpected axioms %s" % axioms, {"axioms": axioms}, no_input=True)
     # ---- coverage
@@ -540,19 +762,19 @@ def main(tier):
         nontriv.add((g["cfg"], "gram"))
     nfail = sum(len(v) for v in groups.values())
     R.cov.update(
-        obligations=len(thms) + len(cases) + len(grams),
-        discharged=len(thms) + len(cases) + len(grams) - len([c for c in failing]),
+        obligations=len(thms) + len(cases) + len(grams) + len(hrecs),
+        discharged=len(thms) + len(cases) + len(grams) + len(hrecs) - len([c for c in failing]) - hbad,
         checker_cmd="make -C coq; coqc Ops/DFT.v Ops/DFTEngines.v Corr/CheckC08.v Props/C08.v (Print Assumptions); coqc .work/C08/c08_*.v "
                     "(vm_compute: returned vector vs x, Gram matrix vs identity, tol 1e-9)",
-        theorems=thms, axioms_reported=axioms, evaluations=len(cases) + len(grams), distinct_nontrivial=len(nontriv),
+        theorems=thms, axioms_reported=axioms, evaluations=len(cases) + len(grams) + sum(len(r.get('cols', [])) + 2 for r in hrecs), haar_configurations=len(hrecs), distinct_nontrivial=len(nontriv),
         rule="x: integers in [-9,9] (Gaussian integers for complex-linear configurations); FFT/FFT2D/FFTND over engines x norms x real x dtype x "
              "shifts x axes x nfft in n+{0,1,2,5}; Op.H@(Op@x) for ortho and Op/(Op@x) for every norm; DCT types 1-4 all axis subsets; "
-             "DWT/DWT2D/DWTND orthogonal wavelets, lengths multiple of 2^level (+ Gram matrix of columns for n<=16/32); Flip, Roll, Transpose, "
+             "DWT/DWT2D/DWTND orthogonal wavelets, lengths multiple of 2^level (+ Gram matrix of columns for n<=16/32) and levels deeper than the length supports (2^level > padded n: H, '/', div); shape/dims/dimsd/output-length consistency of every operator; MatrixMult real A with complex right-hand side; Flip, Roll, Transpose, "
              "square Identity; MatrixMult unimodular integer / Gaussian-integer matrices dense/csc/csr, wrapped or not: inv(), '/', "
              "div(densesolver=numpy), tall full-column-rank for the lstsq branch; structured full-rank matrices (complex symmetric non-Hermitian, complex diagonal, complex scaled identity, real symmetric, Hermitian, real/complex triangular). non-trivial = distinct (configuration, kind, x) with x != 0 and result != 0",
         configurations=len(cfgs), distribution=dist, implementation_errors=len(errors), failing_configurations=nfail,
         modelled="FFT/FFT2D/FFTND (Ops/DFT.v, Ops/DFTEngines.v), Flip/Roll/Transpose/Identity as index maps",
-        l1_only="DCT (scipy), DWT/DWT2D/DWTND (pywt), MatrixMult.inv and explicit '/' (LAPACK / SuperLU are oracles)",
+        l1_only="DCT (scipy), DWT/DWT2D/DWTND for non-Haar wavelets and 2-D/N-d transforms (pywt); DWT(haar) 1-D along an axis is MODELLED (Ops/Haar.v, matrix compared in Coq over Q(sqrt 2)); MatrixMult.inv and explicit '/' (LAPACK / SuperLU are oracles)",
         t_python=round(t_py, 1), t_coq=round(t_coq, 1))
     R.samples = [dict(family=c["family"], params={k: v for k, v in c["params"].items() if k != "A"}, kind=c["kind"],
                       x=[str(t) for t in c["x"][:5]], returned=[str(t) for t in c["r"][:5]])
